@@ -2,6 +2,7 @@ import BbRe.Model.Idle
 import BbRe.Model.BuildDirs
 import BbRe.Lemmas.Idle
 import BbRe.Lemmas.IdleDirs
+import BbRe.Lemmas.IdleWorker
 /-!
 # C12 — each action runs isolated and leaves nothing behind
 
@@ -196,17 +197,23 @@ theorem first_user_follows_clean {s s' : State} (h : Reachable s) (op : Op)
     · cases hs; exact absurd rfl hu'
     · cases hs
 
-/-- `transitions`, part 3: an `Acquire` arriving at an idle system on which no
-cleaning is in progress starts the cleaner and is not admitted yet. -/
-theorem acquire_on_idle_cleans {s s' : State} (h : Reachable s) (t : Nat)
-    (hs : step s (.acquireEnter t) = some s') (hu : s.useCount = 0) (hw : s.wakeup = none) :
+/-- `transitions`, part 3: an `Acquire` that arrives at (or is woken on) an idle
+system on which no cleaning is in progress starts the cleaner and is not
+admitted yet. -/
+theorem acquire_on_idle_cleans {s s' : State} (h : Reachable s) (t : Nat) (op : Op)
+    (hop : op = .acquireEnter t ∨ op = .wake t)
+    (hs : step s op = some s') (hu : s.useCount = 0) (hw : s.wakeup = none) :
     s'.wakeup ≠ none ∧ s'.pc t = .cleanAcq ∧ s'.useCount = 0 := by
   have inv := inv_reachable h
-  unfold step at hs
-  simp only [inv.noPanic, Bool.false_eq_true, ↓reduceIte] at hs
-  split at hs
+  rcases hop with e | e <;> subst e <;> unfold step at hs <;>
+    simp only [inv.noPanic, Bool.false_eq_true, ↓reduceIte] at hs <;> split at hs
   · cases hs
     simp [acquireBody, hw, hu, startClean]
+  · cases hs
+  · split at hs
+    · cases hs
+      simp [acquireBody, hw, hu, startClean]
+    · cases hs
   · cases hs
 
 /-- `transitions`, part 4: a failed cleaning before an `Acquire` admits nobody:
@@ -229,6 +236,41 @@ theorem failed_preclean_admits_nobody {s s' : State} (h : Reachable s) (t : Nat)
     split
     · simp
     · exact excl.1 x
+
+/-- `transitions` (summary): for every enabled step from a reachable state,
+(1) a cleaner call starts in this step **iff** the step is an `Acquire`
+(arriving or woken) that finds no cleaning in progress and 0 users, or a
+`Release` that takes the number of users from 1 to 0;
+(2) the number of users leaves 0 only in the step that completes a successful
+cleaner call made by an `Acquire`;
+(3) the step that completes a failed one leaves 0 users and nobody admitted. -/
+theorem transitions {s s' : State} (h : Reachable s) (op : Op) (hs : step s op = some s') :
+    ((s.wakeup = none ∧ s'.wakeup ≠ none) ↔
+      ((∃ t, (op = .acquireEnter t ∨ op = .wake t) ∧ s.wakeup = none ∧ s.useCount = 0) ∨
+       (∃ t, op = .releaseEnter t ∧ s.useCount = 1))) ∧
+    (s.useCount = 0 → s'.useCount ≠ 0 → ∃ t, op = .cleanDone t true ∧ s.pc t = .cleanAcq) ∧
+    (∀ t, op = .cleanDone t false → s.pc t = .cleanAcq → s'.useCount = 0 ∧ ∀ x, s'.pc x ≠ .inUse) := by
+  refine ⟨⟨?_, ?_⟩, ?_, ?_⟩
+  · rintro ⟨hw, hw'⟩
+    rcases clean_starts_only_at_transitions h op hs hw hw' with ⟨t, hop, hu, _, _⟩ | ⟨t, hop, hu, _, _⟩
+    · exact Or.inl ⟨t, hop, hw, hu⟩
+    · exact Or.inr ⟨t, hop, hu⟩
+  · rintro (⟨t, hop, hw, hu⟩ | ⟨t, hop, hu⟩)
+    · exact ⟨hw, (acquire_on_idle_cleans h t op hop hs hu hw).1⟩
+    · subst hop
+      have inv := inv_reachable h
+      have hw : s.wakeup = none := by
+        cases hwk : s.wakeup with
+        | none => rfl
+        | some c => have := inv.useZero (by rw [hwk]; simp); omega
+      exact ⟨hw, (last_release_cleans h t hs hu).1⟩
+  · intro hu hu'
+    obtain ⟨t, hop, hpc, _, _⟩ := first_user_follows_clean h op hs hu hu'
+    exact ⟨t, hop, hpc⟩
+  · intro t hop hpc
+    subst hop
+    obtain ⟨h1, _, h3, _⟩ := failed_preclean_admits_nobody h t hpc hs
+    exact ⟨h1, h3⟩
 
 /-- `no_stuck_waiter`, part 1: a parked `Acquire` is either waiting for the
 cleaner call that is running right now (whose completion step is enabled,
@@ -416,5 +458,55 @@ example : (drun exHolding [.closeChild 0 false, .removeAll 0 false]).pc 0 = .fin
 example : (BuildDirs.step exHolding (.clean true)).isSome = false := by decide
 
 end dirs
+
+/-! ## invoker and build directories together (`BbRe.Worker`) -/
+
+section worker
+open BbRe.Lemmas.IdleWorker
+
+/-- In the coupled system both components stay reachable in their own
+transition systems, so every theorem above applies to them; and every
+directory thread between `begin` and `release` is a user of the invoker. -/
+theorem worker_components {s : Worker.State} (h : Worker.Reachable s) :
+    Idle.Reachable s.idle ∧ BuildDirs.Reachable s.dirs ∧
+    ∀ t, BuildDirs.DPC.user (s.dirs.pc t) = true → s.idle.pc t = .inUse :=
+  let w := winv_reachable h
+  ⟨w.idle, w.dirs, w.coupled⟩
+
+/-- The cleaner never runs concurrently with a running action's directory:
+while any thread is inside the cleaner, no thread is between `begin` and
+`release`, nobody owns a directory, and emptying the root is an enabled
+`clean` step of `Model/BuildDirs.lean` (which is how `Worker.Step.cleanDone`
+applies it). -/
+theorem cleaner_excludes_directory_users {s : Worker.State} (h : Worker.Reachable s) (t : Nat)
+    (ht : (s.idle.pc t).cleaning = true) :
+    (∀ x, BuildDirs.DPC.user (s.dirs.pc x) = false) ∧ (∀ x n, ¬ (s.dirs.pc x).owns n) ∧
+    s.dirs.active = 0 ∧ ∀ ok, (BuildDirs.step s.dirs (.clean ok)).isSome = true := by
+  have w := winv_reachable h
+  obtain ⟨h1, h2⟩ := no_dir_users_while_cleaning w t ht
+  refine ⟨h1, ?_, h2, ?_⟩
+  · intro x n hown
+    have := h1 x
+    cases hp : s.dirs.pc x <;> simp_all [BuildDirs.DPC.owns, BuildDirs.DPC.user]
+  · intro ok
+    simp only [BuildDirs.step, h2, ↓reduceIte]
+    cases ok <;> rfl
+
+/-! ### non-vacuity: a reachable worker state in which the cleaner runs, and one with a directory user -/
+
+def exWorkerCleaning : Worker.State := ⟨Idle.acquireBody Idle.init 0, BuildDirs.init⟩
+
+example : Worker.Reachable exWorkerCleaning ∧ (exWorkerCleaning.idle.pc 0).cleaning = true :=
+  ⟨.step .init (.idle Worker.init (.acquireEnter 0) _ rfl (by intro t h; cases h) (by intro t ok h; cases h)),
+   by decide⟩
+
+example : ∃ s, Worker.Reachable s ∧ BuildDirs.DPC.user (s.dirs.pc 0) = true := by
+  have h1 : Worker.Reachable ⟨(Idle.acquireBody Idle.init 0), BuildDirs.init⟩ :=
+    .step .init (.idle Worker.init (.acquireEnter 0) _ rfl (by intro t h; cases h) (by intro t ok h; cases h))
+  have h2 := Worker.Reachable.step h1 (.cleanDone _ 0 true _ rfl)
+  have h3 := Worker.Reachable.step h2 (.begin _ 0 none _ (by decide) rfl)
+  exact ⟨_, h3, by decide⟩
+
+end worker
 
 end BbRe.Properties.C12
